@@ -25,6 +25,11 @@ import (
 // C05: generated lexer code behaves exactly like the runtime lexer.
 
 func c05MapFor(seed int64, batch, i int) *lexgen.GMap {
+	if batch == 0 && i == 0 {
+		// fixed definition with lexer-elided rules: driven with a very long run of elided tokens
+		return &lexgen.GMap{States: []string{"Root"}, Rules: map[string][]lexgen.GRule{"Root": {
+			{Name: "comment", Pattern: `#[^\n]*`}, {Name: "nl", Pattern: `\n`}, {Name: "Id", Pattern: `[a-z]+`}, {Name: "sp", Pattern: ` +`}}}}
+	}
 	r := mon.NewRNG(seed, "C05", batch, "map", i)
 	return lexgen.GenMap(r, &lexgen.MapOpts{Supported: true, MaxStates: 1 + i%4, Elide: i%3 == 0, Plain: i%4 == 1})
 }
@@ -306,14 +311,17 @@ func c05Child(c *mon.Child) {
 		names := symNames(def)
 		r := c.RNG("inputs", idx)
 		inputs := lexInputs(r, g, nInputs)
+		if c.Batch == 0 && idx == 0 {
+			inputs = append([]string{strings.Repeat("# c\n", 400000) + "x y", strings.Repeat("\n", 1000000), "a # c\nb  c\n"}, inputs[:10]...)
+		}
 		for ii, in := range inputs {
 			key := fmt.Sprintf("m%d.i%d", idx, ii)
 			if !c.Want(key) {
 				continue
 			}
-			c.Begin(key, fmt.Sprintf("%s <- %q", trunc(gdesc, 300), in))
+			c.Begin(key, fmt.Sprintf("%s <- %q", trunc(gdesc, 300), trunc(in, 300)))
 			c.Eval(1)
-			detail := func() interface{} { return map[string]interface{}{"rules": g, "input": in} }
+			detail := func() interface{} { return map[string]interface{}{"rules": g, "input": trunc(in, 3000)} }
 			v := c05Model(g, rules, in)
 			if v.HangAt >= 0 {
 				// The model found a repetition whose body can complete an iteration without
@@ -372,7 +380,7 @@ func c05Child(c *mon.Child) {
 			}
 			diff := c05Compare(real, got, limit, v.ToleratedAt >= 0)
 			if diff != "" {
-				c.Violation(c05DiffClass(g, rules, real, got, in), key, fmt.Sprintf("%s | rules: %s | input: %q", diff, gdesc, in), detail())
+				c.Violation(c05DiffClass(g, rules, real, got, in), key, fmt.Sprintf("%s | rules: %s | input: %q", diff, gdesc, trunc(in, 400)), detail())
 			} else if v.ToleratedAt < 0 && got.EOF != nil {
 				// the generated lexer's own output also has to satisfy C04's oracle and C07's monitors
 				var toks []lexer.Token
@@ -381,7 +389,7 @@ func c05Child(c *mon.Child) {
 				}
 				toks = append(toks, *got.EOF)
 				if d := c04Oracle(toks, in, fname, !g.HasElided()); d != "" {
-					c.Violation("", key, "generated lexer output violates the position/value oracle: "+d+" | rules: "+gdesc+fmt.Sprintf(" | input: %q", in), detail())
+					c.Violation("", key, "generated lexer output violates the position/value oracle: "+d+" | rules: "+gdesc+fmt.Sprintf(" | input: %q", trunc(in, 400)), detail())
 				}
 				for k := 0; k < 2; k++ {
 					var t lexer.Token
